@@ -1,5 +1,6 @@
 import Driver.Proto
 import LadimModel.Forcing.Roms
+import LadimModel.Forcing.Nk800
 namespace Driver
 open Ladim
 
@@ -31,4 +32,33 @@ def hRomsRun : Handler := do
     pure (" ".intercalate ("init" :: outs))
 
 def forcingHandlers : List (String × Handler) := [("roms.steps", hRomsSteps), ("roms.run", hRomsRun)]
+end Driver
+
+namespace Driver
+open Ladim
+
+/-- `nk.serve n (name hour)*` -> for each request `1` if the backing file was read, else `0` -/
+def hNkServe : Handler := do
+  let reqs ← getList (do let n ← getS; let h ← getI; pure (n, h))
+  let load : String × Int → String := fun k => k.1 ++ "@" ++ toString k.2
+  let frameOf : String × Int → Int := fun k => k.2
+  let (_, outs) := reqs.foldl (fun (acc : Nk800.Buffer (String × Int) String Int × List String) k =>
+    let r := Nk800.getVar load frameOf acc.1 k
+    (r.1, acc.2 ++ [(if r.2.2 then "1" else "0") ++ (if r.2.1 == some (load k) then "" else "!")])) (Nk800.Buffer.empty, [])
+  pure (outList id outs)
+
+def hNkInterp : Handler := do
+  let w ← getN; let v1 ← getF; let v2 ← getF; let q ← getF
+  pure (outF (Nk800.interpW (if w == 0 then .backward else .forward) v1 v2 q))
+
+def hNkMidx : Handler := do
+  let hi ← getI; let r ← getI
+  pure (outI (Nk800.metricIndex hi r))
+
+def hNkHour : Handler := do
+  let t ← getI
+  pure s!"{Nk800.hourOf t} {(Nk800.hourFraction t).1}"
+
+def nkHandlers : List (String × Handler) :=
+  [("nk.serve", hNkServe), ("nk.interp", hNkInterp), ("nk.midx", hNkMidx), ("nk.hour", hNkHour)]
 end Driver
